@@ -69,10 +69,7 @@ def verify_function(eng, qualname):
     # vacuity guard: the precondition must be satisfiable
     eng.oblige(st, "cover:requires", 'cover', z3.BoolVal(False), fdef, expect_sat=True)
     for tgt in calls.eval_assign_targets(eng, c.assigns, st.env, st):
-        if tgt[0] == 'ref':
-            f.assign_refs.append(('ref', tgt[1].t))
-        else:
-            f.assign_refs.append(('field', tgt[1].t, calls.target_key(eng, tgt)))
+        f.assign_refs.append(frame_entry(eng, st, tgt))
     outs = stmts.exec_block(eng, fdef.body, st)
     nret = 0
     for (o, s) in outs:
@@ -110,6 +107,14 @@ def verify_function(eng, qualname):
     obls = eng.obls[n0:]
     return dict(obligations=obls, sha=mod.sha(fdef), lines=(fdef.lineno, fdef.end_lineno), paths=len(outs),
                 file=mod.path)
+
+
+def frame_entry(eng, st, tgt):
+    if tgt[0] == 'ref':
+        return ('ref', tgt[1].t)
+    if tgt[0] == 'each':
+        return ('each', eng.list_len(st, tgt[1]), eng.list_arr(st, tgt[1]), calls.target_key(eng, tgt))
+    return ('field', tgt[1].t, calls.target_key(eng, tgt))
 
 
 def s_with_heap(s, heap):
